@@ -8,6 +8,8 @@ from pathlib import Path
 
 from .common import LEAN, SRC, VERIF, add_failure, bump, new_outcome
 
+_add_failure = add_failure
+
 PROP = "C17"
 PROPS_FILES = ["CogentModel/Props/C17.lean"]
 LEAN_TARGETS = ["CogentModel.Props.C17"]
@@ -898,6 +900,14 @@ def spec_check(ctx, budget):
         "in 0..3 of them) loaded through ONE glob pattern vs the concatenation of their record lists. non-trivial = query selecting a non-empty proper "
         "subset, or a multiset/chain step on a non-empty db"
     )
+    seen_sig = {}
+
+    def add_failure(o, kind, what, inp, want, got, sig=None):  # _cap_add: at most 4 examples per failure class, so a
+        seen_sig[sig] = seen_sig.get(sig, 0) + 1               # frequent (known) class cannot crowd out another one
+        bump(o, "failure_class", sig)
+        if seen_sig[sig] <= 4:
+            _add_failure(o, kind, what, inp, want, got, sig=sig)
+
     rng = ctx.subrng(f"spec{budget}")
     scratch = ctx.scratch
     n_db = 10 * budget
